@@ -34,6 +34,11 @@ PROGRAMS = {
     "alias-cycle": ({"main.oal": "let a = b;\nlet b = a;\nres / on get -> <a>;\n"}, REJECT, {}),
     "self-alias": ({"main.oal": "let a = a;\nres / on get -> <a>;\n"}, REJECT, {}),
     "transfer-cycle": ({"main.oal": "let t = get -> <{}> :: t;\nres / on t;\n"}, REJECT, {}),
+    # a component that can be cut at a schema but still holds a cycle without one: the next pass must find it
+    "self-recursive-function-inside-a-schema-cycle": ({"main.oal": "let f x = { 'a a, 'n (f x) };\nlet a = f int;\nres / on get -> <a>;\n"}, REJECT, {}),
+    "function-cycle-inside-a-schema-cycle": ({"main.oal": "let s = { 'v (f str) };\nlet f x = { 'g (g x), 's s };\nlet g x = { 'f (f x) };\nres / on get -> <s>;\n"}, REJECT, {}),
+    "function-cycle-next-to-a-schema-cycle": ({"main.oal": "let f x = { 'f (h x) };\nlet h x = { 'h (f x) };\nlet a = { 'b b };\nlet b = { 'a a };\nres / on get -> <a>;\nres /f on get -> <f str>;\n"}, REJECT, {}),
+    "schema-cycle-next-to-a-function-cycle": ({"main.oal": "let a = { 'b b };\nlet b = { 'a a };\nlet f x = { 'f (h x) };\nlet h x = { 'h (f x) };\nres / on get -> <a>;\nres /f on get -> <f str>;\n"}, REJECT, {}),
     "cycle-through-two-functions-and-a-schema": ({"main.oal": "let f x = { 'g? g x };\nlet g y = f y;\nres / on get -> <f num>;\n"}, None, {}),
 }
 
@@ -230,6 +235,10 @@ def check():
             hc = [v for k, v in p.state.vals.items() if k in p.state.havocked and f_cyc.debug.get(k[1] if isinstance(k, tuple) else k) == "has_changed"]
             if ie and hc:
                 L.expect_unsat("cycles_check: another pass runs exactly when this pass scheduled something to cut", cond + [S.b(hc[0]) == S.b(ie[-1][3])], on_sat)
+                dr = [e for e in calls if e[1] == "Vec::drain"]
+                deciding = [e for e in ie if any(t == e[3] for t in ms.subterms(hc[0]))] or ie[-1:]
+                structural("cycles_check: the cut list is asked before it is drained (it is empty afterwards by construction)",
+                           bool(dr) and all(calls.index(e) < calls.index(dr[0]) for e in deciding))
             else:
                 structural("cycles_check: the pass decides about another pass from the cut list", False)
     # which kinds can be cut at: cycles_check run once per abstract kind (the table C01 also uses), the
